@@ -421,6 +421,40 @@ func oracle(c Case) (evid.Info, error) {
 		return fail(fmt.Errorf("the same criteria values assembled into a second Neo4j query give another question\n  first:  %s %v\n  second: %s %v", t2, neoBuilder.Parameters, t3, again.Parameters))
 	}
 	cls["verdict:criteria-reuse"] = true
+
+	// (D) the builder is an object with a life of its own: rendering twice gives the same text, and preparing the
+	// all-shortest-paths form after the plain form has been rendered gives what a fresh builder gives for it.
+	if t2b, err := neoBuilder.Render(); err != nil || t2b != t2 {
+		return fail(fmt.Errorf("rendering the same prepared Neo4j query twice gives another text (%v)\n  first:  %s\n  second: %s", err, t2, t2b))
+	}
+	if !c.AllSP {
+		fresh := neo4j.NewEmptyQueryBuilder()
+		for _, criterion := range criteria {
+			fresh.Apply(criterion)
+		}
+		// (a program without a reading clause has no all-shortest-paths form; the builder does not guard against it,
+		// which is a question of totality, not of what the emitted text means)
+		freshOK := func() (ok bool) {
+			defer func() {
+				if recover() != nil {
+					ok = false
+				}
+			}()
+			return fresh.PrepareAllShortestPaths() == nil
+		}()
+		if freshOK {
+			if want, err := fresh.Render(); err == nil {
+				if err := neoBuilder.PrepareAllShortestPaths(); err != nil {
+					return fail(fmt.Errorf("PrepareAllShortestPaths after Prepare + Render fails (%v) where a fresh builder accepts the criteria", err))
+				}
+				got, err := neoBuilder.Render()
+				if err != nil || got != want {
+					return fail(fmt.Errorf("Prepare, Render, PrepareAllShortestPaths, Render on one builder sends another text than a fresh builder prepared for all shortest paths (%v)\n  fresh:  %s\n  reused: %s", err, want, got))
+				}
+				cls["verdict:prepare-sequence"] = true
+			}
+		}
+	}
 	return finish()
 }
 
